@@ -248,3 +248,27 @@ func NonceBlock() *rapid.Generator[[]byte] {
 		return b
 	})
 }
+
+// OtherKey draws a key pair different from every key in avoid. The generator's small classes (d near n, small d, the
+// leading-zero table) make collisions a regular event; a collision is resolved inside [1, n-2], never by d+1 (which
+// leaves the range for d = n-2).
+func OtherKey(t *rapid.T, root, label string, avoid ...*big.Int) Key {
+	k := KeyPair(root).Draw(t, label)
+	nm2 := new(big.Int).Sub(N, big.NewInt(2))
+	for tries := 0; tries < 8; tries++ {
+		clash := false
+		for _, a := range avoid {
+			if a != nil && a.Cmp(k.D) == 0 {
+				clash = true
+			}
+		}
+		if !clash {
+			return k
+		}
+		d := new(big.Int).Add(k.D, big.NewInt(12345))
+		d.Mod(d, nm2).Add(d, big.NewInt(1))
+		p := rsm2.Std.BaseMul(d)
+		k = Key{D: d, Pub: p, Class: ClassOf(d, p)}
+	}
+	return k
+}
